@@ -324,7 +324,7 @@ def scanner_sibling_rules(ctx, rule_blank, rule_line):
     nblank = 0
     for fname, fn in lx.methods("CLexer").items():
         for n in ast.walk(fn):
-            if isinstance(n, ast.Compare) and len(n.ops) == 1 and isinstance(n.ops[0], ast.In) and isinstance(n.comparators[0], ast.Constant) and n.comparators[0].value == " \t":
+            if isinstance(n, ast.Compare) and len(n.ops) == 1 and isinstance(n.ops[0], ast.In) and _is_blank_const(n.comparators[0]):
                 holder = n
                 while holder is not None and not isinstance(holder, (ast.While, ast.If, ast.IfExp)):
                     holder = getattr(holder, "_parent", None)
@@ -378,16 +378,36 @@ def scanner_sibling_rules(ctx, rule_blank, rule_line):
     ends = [n for n in ast.walk(pl) if isinstance(n, ast.If) and S.enclosing_function(n) is pl and _is_end_test(n.test, cursor, length)]
     if len(ends) < 2:
         raise AnalysisError("_handle_ppline: end-of-line tests not found")
+    def skips(st):
+        return st is not None and ((isinstance(st, ast.Expr) and isinstance(st.value, ast.Call) and isinstance(st.value.func, ast.Name) and st.value.func.id == skipper)
+                                   or (isinstance(st, ast.Assign) and isinstance(st.value, ast.Call) and isinstance(st.value.func, ast.Name) and st.value.func.id in skippers)
+                                   or (isinstance(st, ast.While) and any(_is_blank_const(x) for x in ast.walk(st.test))))
+    # the loop form of an end test (`while pos < line_len:` over the flags): blanks are skipped before the loop and at the end of every round
+    for n in [w for w in ast.walk(pl) if isinstance(w, ast.While) and S.enclosing_function(w) is pl and _is_not_end_test(w.test, cursor, length)]:
+        blk, idx = _block_of(n)
+        ok = skips(blk[idx - 1] if idx > 0 else None) and skips(n.body[-1] if n.body else None) and not any(isinstance(x, ast.Continue) for x in ast.walk(n))
+        ctx.oblige(rule_line, f"_handle_ppline: loop test at line {n.lineno} follows blank skipping on entry and after every round", ok)
+        if not ok:
+            viol(rule_line, f"ppline-trailing-blanks:{S.unparse(n.test)}:loop", f"in _handle_ppline the loop test `{S.unparse(n.test)}` is not preceded by blank skipping on entry and at the end of each round: a directive followed by "
+                 "spaces or tabs is not recognised as complete and is reported as invalid", "CLexer._handle_ppline", n)
     for n in ends:
         blk, idx = _block_of(n)
         prev = blk[idx - 1] if idx > 0 else None
         ok = prev is not None and ((isinstance(prev, ast.Expr) and isinstance(prev.value, ast.Call) and isinstance(prev.value.func, ast.Name) and prev.value.func.id == skipper)
                                    or (isinstance(prev, ast.Assign) and isinstance(prev.value, ast.Call) and isinstance(prev.value.func, ast.Name) and prev.value.func.id in skippers)
-                                   or (isinstance(prev, ast.While) and any(isinstance(x, ast.Constant) and x.value == " \t" for x in ast.walk(prev.test))))
+                                   or (isinstance(prev, ast.While) and any(_is_blank_const(x) for x in ast.walk(prev.test))))
         ctx.oblige(rule_line, f"_handle_ppline: end test at line {n.lineno} follows blank skipping", ok)
         if not ok:
             viol(rule_line, f"ppline-trailing-blanks:{S.unparse(n.test)}:{idx}", f"in _handle_ppline the end-of-line test `{S.unparse(n.test)}` is not immediately preceded by blank skipping, unlike its siblings: a directive that ends here followed by "
                  "spaces or tabs (`# 7 ` + newline) is not recognised as complete and is reported as invalid", "CLexer._handle_ppline", n)
+
+
+def _is_blank_const(x):
+    return isinstance(x, ast.Constant) and isinstance(x.value, str) and len(x.value) == 2 and set(x.value) == {" ", "\t"}
+
+
+def _is_not_end_test(t, cursor, length):
+    return isinstance(t, ast.Compare) and len(t.ops) == 1 and isinstance(t.ops[0], (ast.Lt, ast.NotEq)) and S.unparse(t.left) == cursor and S.unparse(t.comparators[0]) == length
 
 
 def _is_end_test(t, cursor, length):
@@ -400,7 +420,7 @@ def _blank_skippers(lx):
     for name, f in lx.functions.items():
         body = [st for st in f.body if not (isinstance(st, ast.Expr) and isinstance(st.value, ast.Constant))]
         if len(body) == 2 and isinstance(body[0], ast.While) and isinstance(body[1], ast.Return) and isinstance(body[1].value, ast.Name) \
-                and any(isinstance(x, ast.Constant) and x.value == " \t" for x in ast.walk(body[0].test)):
+                and any(_is_blank_const(x) for x in ast.walk(body[0].test)):
             params = [a.arg for a in f.args.args]
             cur = body[1].value.id
             end = None
@@ -425,7 +445,7 @@ def _ppline_names(pl, skippers=None):
                 if f is not pl and isinstance(f, ast.FunctionDef):
                     out["skipper"] = f.name
     for n in ast.walk(pl):
-        if isinstance(n, ast.While) and any(isinstance(x, ast.Constant) and x.value == " \t" for x in ast.walk(n.test)):
+        if isinstance(n, ast.While) and any(_is_blank_const(x) for x in ast.walk(n.test)):
             for c in ast.walk(n.test):
                 if isinstance(c, ast.Compare) and len(c.ops) == 1 and isinstance(c.ops[0], ast.Lt) and isinstance(c.left, ast.Name) and isinstance(c.comparators[0], ast.Name):
                     out["cursor"], out["length"] = c.left.id, c.comparators[0].id
@@ -577,6 +597,11 @@ def _dominated_by_end_test(call, fn, cursor="pos", length="line_len"):
             return True
         # `break` out of the flag loop under the end test, followed by success after the loop
         blk, idx = _block_of(cur)
+        # ... or a loop `while pos < line_len:` without break just before: leaving it means the end of the line was reached
+        prev = blk[idx - 1] if idx > 0 else None
+        if isinstance(prev, ast.While) and _is_not_end_test(prev.test, cursor, length) and not prev.orelse \
+                and not any(isinstance(x, ast.Break) for x in ast.walk(prev)):
+            return True
         for st in blk[:idx]:
             if isinstance(st, ast.While):
                 for b in ast.walk(st):
